@@ -110,23 +110,48 @@ def complete(cd) -> bool:
     return cd["vt"] is not None and cd["entity"] is not None and cd["dp"] is not None
 
 
-def norm_meta(m):
-    """what `Variable.set_label / set_reference / set_documentation` make of the declared values"""
+META = ("label", "reference", "documentation", "unit", "cerfa_field", "calculate_output",
+        "is_period_size_independent", "max_length")
+INHERIT_WHEN_FALSY = ("calculate_output",)      # like set_input: `if not value and baseline: inherit`
+
+
+def norm_meta(m, vt):
+    """what `Variable.__init__` makes of the DECLARED values (None = not declared)"""
     import textwrap
     m = m or {}
-    ref = m.get("reference")
-    if isinstance(ref, dict):
-        ref = list(ref["t"])
-    elif isinstance(ref, str):
-        ref = [ref]
-    doc = m.get("documentation")
-    return {"label": m.get("label") or None, "reference": ref or None,
-            "documentation": textwrap.dedent(doc) if doc else None, "unit": m.get("unit") or None}
+    out = {k: None for k in META}
+    if "label" in m:
+        out["label"] = m["label"] or None                      # set_label
+    if "reference" in m:
+        ref = m["reference"]
+        ref = list(ref["t"]) if isinstance(ref, dict) else [ref] if isinstance(ref, str) and ref else ref
+        out["reference"] = ref                                 # set_reference: a falsy value is kept as it is
+    if "documentation" in m:
+        out["documentation"] = textwrap.dedent(m["documentation"]) if m["documentation"] else None
+    for k in ("unit", "max_length", "is_period_size_independent"):
+        if k in m:
+            out[k] = m[k]
+    if "cerfa_field" in m:
+        out["cerfa_field"] = m["cerfa_field"]["d"] if isinstance(m["cerfa_field"], dict) else m["cerfa_field"]
+    if m.get("calculate_output"):
+        out["calculate_output"] = m["calculate_output"]
+    return out
+
+
+def type_ipsi(vt):
+    return vt not in ("int", "float")
+
+
+def eff_end(cd):
+    return cd["end"] or None
 
 
 def new_var(cd):
-    return {"meta": norm_meta(cd.get("meta")), "label_open": False, "vt": cd["vt"], "default": cd["default"] if cd["default"] is not None else su.type_default_tok(cd["vt"]),
-            "entity": cd["entity"], "dp": cd["dp"], "end": cd["end"], "si": cd["si"], "neutralized": False,
+    nm = norm_meta(cd.get("meta"), cd["vt"])
+    if "is_period_size_independent" not in (cd.get("meta") or {}):
+        nm["is_period_size_independent"] = type_ipsi(cd["vt"])
+    return {"meta": nm, "label_open": False, "vt": cd["vt"], "default": cd["default"] if cd["default"] is not None else su.type_default_tok(cd["vt"]),
+            "entity": cd["entity"], "dp": cd["dp"], "end": eff_end(cd), "si": cd["si"], "neutralized": False,
             "formulas": declared_formulas(cd), "optional": [], "has_baseline": False, "last": "new"}
 
 
@@ -176,12 +201,12 @@ class SpecSys:
         """-> True when the statement says the modification is well defined (must succeed)"""
         k, x = m
         if k == "add":
-            if x["name"] in self.vars or not complete(x) or not formulas_ok(x["formulas"], x["end"]):
+            if x["name"] in self.vars or not complete(x) or not formulas_ok(x["formulas"], eff_end(x)):
                 return False
             self.vars[x["name"]] = new_var(x)
             return True
         if k == "rep":
-            if not complete(x) or not formulas_ok(x["formulas"], x["end"]):
+            if not complete(x) or not formulas_ok(x["formulas"], eff_end(x)):
                 return False
             self.vars[x["name"]] = new_var(x)
             return True
@@ -189,7 +214,7 @@ class SpecSys:
             old = self.vars.get(x["name"])
             if old is None:
                 return self.apply(("add", x))
-            end = x["end"] if x["end"] is not None else old["end"]
+            end = (x["end"] or None) if x["end"] is not None else old["end"]      # (0: `end = ""` clears it)
             if not formulas_ok(x["formulas"], end):
                 return False
             if old["neutralized"]:
@@ -202,10 +227,11 @@ class SpecSys:
                 opt = [(d, f) for d, f in old["formulas"] if d >= first and d not in redecl]
             else:
                 keep, opt = list(old["formulas"]), []
-            nm = norm_meta(x.get("meta"))
+            nm = norm_meta(x.get("meta"), x["vt"] or old["vt"])
+            declared = {k2 for k2 in (x.get("meta") or {}) if not (k2 in INHERIT_WHEN_FALSY and not x["meta"][k2])}
             self.vars[x["name"]] = {
                 # (an attribute declared empty IS redefined: `label = ""` gives no label)
-                "meta": {k2: nm[k2] if k2 in (x.get("meta") or {}) else old["meta"][k2] for k2 in nm},
+                "meta": {k2: nm[k2] if k2 in declared else old["meta"][k2] for k2 in nm},
                 "label_open": old["label_open"] and "label" not in (x.get("meta") or {}),
                 "vt": x["vt"] or old["vt"], "default": x["default"] if x["default"] is not None else old["default"],
                 "entity": x["entity"] or old["entity"], "dp": x["dp"] or old["dp"], "end": end,
@@ -481,8 +507,10 @@ def oracle(case: Case, impl_out: str):
         if not s.judged:
             continue
         for name, v in s.vars.items():
-            got = dict(zip(("label", "reference", "documentation", "unit"), sims["meta"][k][name]))
+            got = sims["meta"][k][name]
             for f, e in v["meta"].items():
+                if f == "max_length" and v["vt"] != "str":
+                    continue
                 if f == "label" and (v["label_open"] or v["neutralized"]):
                     continue
                 if got[f] != e:
@@ -501,7 +529,8 @@ def oracle(case: Case, impl_out: str):
             if e is None:
                 continue
             same = lambda g: g == e or (e == "ERR" and g.startswith("ERR"))
-            req = plan["requests"][i]
+            nreq = len(plan["requests"])
+            req = plan["requests"][i] if i < nreq else ["calculate_output"] + plan["outputs"][i - nreq]
             if not same(g3):
                 if s.reform and s.npar >= 2 and s.baseline is not None:
                     # would the value be explained by the earlier modifiers having been dropped?
@@ -545,19 +574,30 @@ class Gen:
         self.fid = 0
         self.fdefs = {}
         self.entity_of = {}       # the base's variables: their entity
+        self.si_of = {}           # ... their set_input rule
 
-    def meta(self):
-        """descriptive attributes, in their various spellings"""
+    def meta(self, vt="float"):
+        """attributes outside the heap model, each absent / set / set to something falsy"""
         r = self.r
         m = {}
-        if r.random() < 0.6:
-            m["label"] = r.choice(["Label one", "Étiquette", ""])
         if r.random() < 0.5:
-            m["reference"] = r.choice(["https://law.example/1", ["art. 1", "art. 2"], {"t": ["a", "b"]}])
+            m["label"] = r.choice(["Label one", "Étiquette", ""])
         if r.random() < 0.4:
-            m["documentation"] = r.choice(["    Indented\n    text.\n", "One line."])
-        if r.random() < 0.4:
-            m["unit"] = r.choice(["currency", "/1"])
+            m["reference"] = r.choice(["https://law.example/1", ["art. 1", "art. 2"], {"t": ["a", "b"]}, ""])
+        if r.random() < 0.3:
+            m["documentation"] = r.choice(["    Indented\n    text.\n", "One line.", ""])
+        if r.random() < 0.3:
+            m["unit"] = r.choice(["currency", "/1", ""])
+        if r.random() < 0.25:
+            m["cerfa_field"] = r.choice(["1AJ", {"d": {"0": "1AJ", "1": "1BJ"}}, ""])
+        if vt in ("float", "int") and r.random() < 0.35:
+            m["calculate_output"] = r.choice(["add", "divide", ""])
+        if r.random() < 0.25:
+            m["is_period_size_independent"] = r.choice([True, False])
+        if vt == "str" and r.random() < 0.6:
+            m["max_length"] = r.choice([5, 12, 0])
+        if r.random() < 0.15:
+            m["set_input_none"] = True
         return m or None
 
     def expr(self, lower, dp, params, depth=0):
@@ -598,7 +638,7 @@ class Gen:
         if dp != "eternity":
             if r.random() < 0.18:
                 cd["end"] = r.choice(ENDS)
-            if vt != "bool" and r.random() < 0.2:
+            if vt != "bool" and r.random() < 0.3:
                 cd["si"] = r.choice(su.SIS)
             starts = r.sample(STARTS, r.choice([0, 1, 1, 2, 2, 3]))
             if cd["end"] is not None and r.random() < 0.9:
@@ -617,8 +657,8 @@ class Gen:
             cd.update(vt="enum", formulas=[], si=None, default=r.choice(["Ea", "Eb", "Ec"]))
         elif r.random() < 0.04:
             cd.update(vt="str", formulas=[], si=None, default=r.choice(["Sx", "Shello"]))
-        if r.random() < 0.45:
-            cd["meta"] = self.meta()
+        if r.random() < 0.5:
+            cd["meta"] = self.meta(cd["vt"])
             if cd["meta"] is None:
                 del cd["meta"]
         return cd
@@ -627,6 +667,7 @@ class Gen:
         """a partial class for `update_variable`: `cur` = (vt, dp) of the variable as the base declares it"""
         r = self.r
         vt, dp = cur
+        base_si = self.si_of.get(name)
         cd = {"name": name, "vt": None, "entity": None, "dp": None, "default": None, "end": None, "si": None, "formulas": []}
         if vt in ("float", "int") and r.random() < 0.15:
             cd["vt"] = "int" if vt == "float" else "float"
@@ -636,12 +677,19 @@ class Gen:
         elif vt != "date" and r.random() < 0.35:
             cd["default"] = r.choice("TF") if vt == "bool" else str(r.randint(-3, 9))
         if dp != "eternity":
-            if r.random() < 0.2:
-                cd["end"] = r.choice(ENDS)
-            if vt in ("float", "int") and r.random() < 0.15:
-                cd["si"] = r.choice(su.SIS)
-            if r.random() < 0.3:
-                m = self.meta()
+            if r.random() < 0.26:
+                cd["end"] = r.choice(ENDS + [0, 0])               # (0: `end = ""`, the variable no longer ends)
+            if vt in ("float", "int"):
+                if base_si and r.random() < 0.4:
+                    cd["si"] = "divide" if base_si == "dispatch" else "dispatch"      # the OTHER rule
+                elif r.random() < 0.15:
+                    cd["si"] = r.choice(su.SIS)
+            if vt not in NOREF and r.random() < 0.06:
+                cd["entity"] = "household" if self.entity_of.get(name) == "person" else "person"
+            if vt not in NOREF and r.random() < 0.06:
+                cd["dp"] = "year" if dp == "month" else "month"
+            if r.random() < 0.4:
+                m = self.meta(cd["vt"] or vt)
                 if m:
                     cd["meta"] = m
             if vt not in ("date", "enum", "str"):
@@ -671,6 +719,7 @@ class Gen:
             vars_.append(cd)
             info[n] = (cd["vt"], cd["dp"])
             self.entity_of[n] = cd["entity"]
+            self.si_of[n] = cd["si"]
         rank = {n: i for i, n in enumerate(names + NEWNAMES)}
 
         # extensions loaded directly
@@ -689,7 +738,25 @@ class Gen:
         def lower_of(name):
             return [x for x in names if rank[x] < rank.get(name, 99) and info[x][0] not in NOREF]
 
+        def clean(k, cd):
+            """`max_length` is an attribute of string variables only (elsewhere it is an unexpected attribute)"""
+            vt = cd["vt"] or info.get(cd["name"], (None,))[0]
+            m = cd.get("meta")
+            if m and "max_length" in m and vt != "str":
+                del m["max_length"]
+                if not m:
+                    del cd["meta"]
+            if m and "calculate_output" in m and vt not in ("float", "int"):
+                del m["calculate_output"]
+                if not m:
+                    del cd["meta"]
+            return (k, cd)
+
         def mod(allow_par=True):
+            k, x = mod0(allow_par)
+            return clean(k, x) if k in ("add", "upd", "rep") else (k, x)
+
+        def mod0(allow_par=True):
             k = r.choices(["add", "upd", "rep", "neu", "ann", "par", "ext"], [2, 4, 2, 3, 3, 3 if allow_par else 0, 1.3])[0]
             if k == "ext":          # load_extension called directly on the system (or from a reform's apply())
                 return ("ext", r.choice(dpool))
@@ -823,10 +890,19 @@ class Gen:
             inputs.append([n, dp, 2018, r.choice([1, 1, 3]), vals])
         requests = [[r.choice(names + NEWNAMES[:1]) if r.random() < 0.9 else r.choice(NEWNAMES), r.choice([2018, 2018, 2019]),
                      r.choice([1, 3, 3, 12])] for _ in range(r.randint(4, 8))]
+        taken = {i[0] for i in inputs}
+        long_inputs = []
+        for n in names:
+            vt, dp = info[n]
+            if dp == "month" and vt in ("float", "int") and n not in taken and r.random() < 0.45:
+                cnt = su.COUNT[self.entity_of[n]]
+                long_inputs.append([n, 2018, [12 * r.randint(-4, 20) for _ in range(cnt)]])
+        outputs = [[r.choice(names), r.choice([2018, 2018, 2019]), r.choice([1, 3])] for _ in range(r.randint(2, 4))]
         for n in sorted({cd["name"] for _, cds, _ in xpool + dpool for cd in cds}):
             requests.insert(r.randrange(len(requests) + 1), [n, 2018, r.choice([1, 3])])
         return {"ents": ents, "params": params, "vars": vars_, "ops": ops, "queries": queries,
-                "fdefs": dict(self.fdefs), "sim": {"inputs": inputs, "requests": requests}}
+                "fdefs": dict(self.fdefs), "sim": {"inputs": inputs, "requests": requests, "long_inputs": long_inputs,
+                                                   "outputs": outputs}}
 
 
 def mods_of(op):
